@@ -154,6 +154,44 @@ theorem model_meets_spec (rows n : Nat) (hn : 0 < n) :
   simp [Aegean.Spec.C20.isTiling, h, hl]
   omega
 
+
+/-! ### The band is cut from the requested HDU and plane, and from nothing else -/
+
+/-- **band_from_requested_hdu**: the result depends on the file only through the requested HDU: two files
+    that agree on HDU `hdu` (whatever their other HDUs hold — an empty primary, a decoy image of the same
+    dimensionality, …) give the same band -/
+theorem band_from_requested_hdu {β : Type} (file file' : List (Hdu β)) (hdu cube : Nat) (i n : Int)
+    (h : file[hdu]? = file'[hdu]?) :
+    loadBandFile rowMin rowMax file hdu cube i n = loadBandFile rowMin rowMax file' hdu cube i n := by
+  unfold loadBandFile; rw [h]
+
+/-- **band_from_requested_plane**: for a 3-D or 4-D image the band is rows `[rowMin, rowMax)` of plane
+    `cube` of the requested HDU, with that plane's row count as NAXIS2 basis -/
+theorem band_from_requested_plane {β : Type} (file : List (Hdu β)) (hdu cube : Nat) (hd : Hdu β)
+    (plane : List β) (i n : Nat) (hi : i < n)
+    (hh : file[hdu]? = some hd) (hn : hd.naxis = 3 ∨ hd.naxis = 4) (hp : hd.planes[cube]? = some plane) :
+    loadBandFile rowMin rowMax file hdu cube i n = .ok
+      { data := Aegean.Model.C20.slice plane (rowMin plane.length n i) (rowMax plane.length n i),
+        naxis2 := rowMax plane.length n i - rowMin plane.length n i,
+        crpix2Shift := -((rowMin plane.length n i : Nat) : Int) } := by
+  unfold loadBandFile
+  rw [hh]
+  have hs : selectPlane hd cube = .ok plane := by
+    unfold selectPlane
+    rcases hn with h3 | h4
+    · rw [h3]; simp [hp]
+    · rw [h4]; simp [hp]
+  simp only [hs]
+  rw [band_values plane i n hi]
+
+/-- other planes of the cube are irrelevant -/
+theorem band_ignores_other_planes {β : Type} (hd hd' : Hdu β) (cube : Nat)
+    (hn : hd.naxis = hd'.naxis) (h3 : hd.naxis = 3 ∨ hd.naxis = 4) (hp : hd.planes[cube]? = hd'.planes[cube]?) :
+    selectPlane hd cube = selectPlane hd' cube := by
+  unfold selectPlane
+  rw [← hn]
+  rcases h3 with h | h <;> rw [h] <;> simp [hp]
+
 /-! ### Non-vacuity and the negation witness for the pinned float arithmetic -/
 
 example : rowMin 10 3 1 = 3 ∧ rowMax 10 3 1 = 6 ∧ rowMax 10 3 2 = 10 := by decide
